@@ -98,6 +98,10 @@ def run(ctx):
                 if variant == "info" and "\t" in gm:
                     continue
                 d = f"g{i}{variant}"
+                if i % 3 == 0 and variant != "info":
+                    # the payload line comes after more links than WAP has access keys (12): rows without a key are rows too
+                    prefix = "".join(f"0filler {k_}\t/nofile{k_}\n" for k_ in range(13))
+                    gm, gmt = prefix + gm, prefix + gmt
                 gmb = gm.encode("utf-8", "surrogateescape")
                 gmtb = gmt.encode("utf-8", "surrogateescape")
                 if not gmb.strip() or gmb.startswith(b"\t"):
@@ -251,6 +255,32 @@ def run(ctx):
                         _check_menu(res, rows, inp, rp)
                     else:
                         _check_blocks(res, rows, inp, rp)
+        # ---- a directory whose own name looks like a URL: selector without being one ---------------------
+        for i, pl in enumerate(payloads[:ctx.n(30, 200)]):
+            nm = pl.replace("/", "_").replace("\0", "").replace("\r", "").replace("\n", "").replace("\t", " ")
+            if not nm.strip() or ".." in nm or "./" in nm or "\\" in nm or "://" in nm or nm != nm.strip():
+                continue
+            for pre in ("URL:x:", "URL:mailto:", "URL:"):
+                dn, dnt = pre + nm, pre + inert_twin(nm)
+                try:
+                    tree.write((dn + "/inside.txt").encode("utf-8", "surrogateescape"), b"in\n")
+                    tree.write((dnt + "/inside.txt").encode("utf-8", "surrogateescape"), b"in\n")
+                except OSError:
+                    continue
+                for p in ("http", "wap"):
+                    rq, rqt = reqs.build(p, "/" + dn), reqs.build(p, "/" + dnt)
+                    r, rt = pyg.request(rq, cfg), pyg.request(rqt, cfg)
+                    res.evaluations += 2
+                    b1, b2 = reqs.body_of(p, r.out), reqs.body_of(p, rt.out)
+                    if reqs.classify(p, r.out)[0] != "ok" or reqs.classify(p, rt.out)[0] != "ok":
+                        continue
+                    s1 = skeleton(b1.decode("utf-8", "surrogateescape"))
+                    s2 = skeleton(b2.decode("utf-8", "surrogateescape"))
+                    res.nontrivial.add(("urlnamed-dir", pl, p))
+                    if s1 != s2:
+                        res.violation(f"C13:structure-changed:{p}:directory-named-like-url", "a directory's own name changed the structure of its page",
+                                      {"position": "directory-own-name", "payload": dn, "view": p}, observed=s1[1][-200:], required=s2[1][-200:],
+                                      replay={"kind": "request", "request_latin1": rq.decode("latin-1"), "tls": False})
         # ---- text -> WML -------------------------------------------------------------
         for i, pl in enumerate(payloads[:ctx.n(30, 200)]):
             data = (pl + "\nsecond " + pl + "  \n\n").encode("utf-8", "surrogateescape")
